@@ -6,6 +6,9 @@ use unicode_width::UnicodeWidthStr;
 use crate::align;
 use crate::minusplus::MinusPlus;
 
+// (3001 x 3001 tokens, the most that lines within the default --max-line-length can have, fit)
+const MAX_ALIGNMENT_CELLS: usize = 1 << 24;
+
 /// Infer the edit operations responsible for the differences between a collection of old and new
 /// lines. A "line" is a string. An annotated line is a Vec of (op, &str) pairs, where the &str
 /// slices are slices of the line, and their concatenation equals the line. Return the input minus
@@ -48,10 +51,18 @@ where
     'minus_lines_loop: for (minus_index, minus_line) in minus_lines.iter().enumerate() {
         let mut considered = 0; // plus lines considered so far as match for minus_line
         for plus_line in &plus_lines[plus_index..] {
-            let alignment = align::Alignment::new(
-                tokenize(minus_line, tokenization_regex),
-                tokenize(plus_line, tokenization_regex),
-            );
+            let minus_tokens = tokenize(minus_line, tokenization_regex);
+            let plus_tokens = tokenize(plus_line, tokenization_regex);
+            // The alignment table has one cell per pair of tokens. Lines normally stay within
+            // --max-line-length, but that limit is a display width: a line of (say) a million
+            // tabs or zero-width characters passes it, and the table for two such lines cannot
+            // be allocated. Such a pair is not considered for within-line edits.
+            if (minus_tokens.len() + 1).saturating_mul(plus_tokens.len() + 1) > MAX_ALIGNMENT_CELLS
+            {
+                considered += 1;
+                continue;
+            }
+            let alignment = align::Alignment::new(minus_tokens, plus_tokens);
             let (annotated_minus_line, annotated_plus_line, distance) = annotate(
                 alignment,
                 noop_deletions[minus_index],
